@@ -346,7 +346,7 @@ func c14Gen(r *Rng, i int) *Sx {
 			props = append(props, K("sei", I(sei)))
 		}
 		if enhanced {
-			props = append(props, K("authmethod", S(Pick(r, []string{"m", "SCRAM"}))))
+			props = append(props, K("authmethod", S(Pick(r, []string{"m", "SCRAM", ""}))))
 			if r.Bool() {
 				props = append(props, K("authdata", S("d")))
 			}
